@@ -281,6 +281,35 @@ def run_case(spec, ctx):
     except Exception as e:
         detail.append({'what': 'exact solve after soc_solve raises',
                        'error': '%s: %s' % (type(e).__name__, str(e)[:100])})
+    # ---- the model changes after soc_solve: the next soc_solve approximates the CURRENT model
+    o = spec['obj']
+    if not detail and spec['mode'] == 'free' and not o.get('cvx') and not o.get('pieces') \
+            and in_range and hasattr(B, 'obj_expr'):
+        try:
+            with warnings.catch_warnings():
+                warnings.simplefilter('ignore')
+                m.soc_solve(C.solver('eco'), degree=4, display=False)
+                delta = 0.05 * max(1.0, abs(exact))
+                # a cut on the (affine) objective that moves the optimum by delta
+                if o['sense'] == 'min':
+                    m.st(B.obj_expr >= exact + delta)
+                else:
+                    m.st(B.obj_expr <= exact - delta)
+                m.soc_solve(C.solver('eco'), degree=4, display=False)
+                ok2 = C.optimal(m) and 'Optimal' in str(m.solution.status)
+                v2 = float(m.get()) if ok2 else None
+                C.solve(m, 'eco')
+                ok3 = C.optimal(m) and 'Optimal' in str(m.solution.status)
+                v3 = float(m.get()) if ok3 else None
+            if ok2 and ok3:
+                ctx.count('soc_after_change')
+                feats['changed_then_soc'] = True
+                if abs(v2 - v3) > 1e-3 * max(abs(v3), 1.0) + 2e-6:
+                    detail.append({'what': 'soc_solve after st() does not approximate the changed '
+                                   'model', 'soc_after_change': v2, 'exact_after_change': v3,
+                                   'exact_before_change': exact})
+        except Exception as e:
+            ctx.count('soc_after_change_raises:' + type(e).__name__)
     sig = '|'.join('%s=%s' % (k, feats[k]) for k in sorted(feats))
     if detail:
         return {'status': 'violation', 'mechanism': detail[0]['what'], 'detail': detail[:3],
